@@ -970,8 +970,29 @@ Proof.
       repeat split; congruence.
 Qed.
 
-(* a custom property  --name ':' raw-tokens ';'  inside a ruleset: the value is the exact source text *)
-Lemma step_custom p s st0 o1 name o2 c (raw : list tok) tb ts : decl_ctx s -> term_ok tb ->
+(* a custom property is read in declaration blocks and at the top level *)
+Definition custom_ctx (s : pstate) : Prop := decl_ctx s \/ s = SStylesheet.
+
+Lemma custom_dispatch s st0 F q : custom_ctx s -> ptt q = TCustomPropertyName ->
+  match s :: st0 with
+  | [] => PPanic
+  | SStylesheet :: _ => parse_stylesheet F q
+  | SDeclarationList :: _ => parse_declaration_list F q
+  | SAtRuleRuleList :: _ => parse_at_rule_rule_list F q
+  | SAtRuleDeclarationList :: _ => parse_at_rule_declaration_list F q
+  | SAtRuleUnknown :: _ => parse_at_rule_unknown q
+  | SQualifiedRuleDeclarationList :: _ => parse_qualified_rule_declaration_list F q
+  end = parse_custom_property F q.
+Proof.
+  intros [Hd| ->] H.
+  - rewrite (decl_dispatch s st0 F q Hd) by (rewrite H; first [discriminate|reflexivity]).
+    unfold parse_declaration_list. rewrite H. evis. cbn [pbind]. rewrite skip_semicolons_none by (rewrite H; discriminate).
+    cbn [pbind]. rewrite H. evis. cbn [pbind]. cbv zeta. rewrite H. evis. cbn [orb andb]. rewrite ?andb_false_r. reflexivity.
+  - unfold parse_stylesheet. rewrite H. evis. reflexivity.
+Qed.
+
+(* a custom property  --name ':' raw-tokens ';'  : the value is the exact source text *)
+Lemma step_custom p s st0 o1 name o2 c (raw : list tok) tb ts : custom_ctx s -> term_ok tb ->
   wf_state p (s :: st0)
            (optws o1 ++ (TCustomPropertyName, name) :: optws o2 ++ (TColon, c) :: raw ++ tb :: ts) ->
   raw_ok 0 raw -> raw_lv 0 raw = 0 ->
@@ -989,10 +1010,7 @@ Proof.
   destruct (pop_token_ows (next_fuel p) true (set_err p false) o1 TCustomPropertyName name _ Hi Hkw Hl eq_refl HF)
     as (z1 & Hpop & Hl1 & Hi1).
   rewrite Hpop. cbn [pbind fst snd]. cbn [set_tok relex set_err pst]. rewrite Hst.
-  rewrite (decl_dispatch s st0 _ _ Hctx) by (cbn [set_tok ptt]; first [discriminate|reflexivity]).
-  unfold parse_declaration_list. cbn [set_tok ptt]. evis. cbn [pbind].
-  rewrite skip_semicolons_none by (cbn; discriminate). cbn [pbind set_tok ptt]. evis. cbn [pbind orb andb]. cbv zeta. cbn [set_tok ptt]. evis.
-  cbn [orb andb]. rewrite ?andb_false_r. cbn [orb].
+  rewrite (custom_dispatch s st0 _ _ Hctx) by reflexivity.
   unfold parse_custom_property.
   match goal with |- context [pop_token _ false ?q] => set (q0 := q) end.
   destruct (pop_token_ows (next_fuel p) false q0 o2 TColon c _ Hi1 Hkw Hl1 eq_refl HF) as (z2 & Hpop2 & Hl2 & Hi2).
@@ -1366,7 +1384,8 @@ Fixpoint evs_ok (fs : list frame) (l : list ev) : Prop :=
   | EClose _ :: r => match fs with FRule :: fs' => evs_ok fs' r | _ => False end
   | EComment _ _ :: r => fs = [] /\ evs_ok fs r
   | EToken _ t _ :: r => fs = [] /\ is_cd t = true /\ evs_ok fs r
-  | ECustom _ _ _ raw semi :: r => decl_top fs /\ raw_ok 0 raw /\ raw_lv 0 raw = 0 /\ (semi = false -> closer_tight r) /\ evs_ok fs r
+  | ECustom _ _ _ raw semi :: r =>
+      (decl_top fs \/ (fs = [] /\ semi = true)) /\ raw_ok 0 raw /\ raw_lv 0 raw = 0 /\ (semi = false -> closer_tight r) /\ evs_ok fs r
   | EAtRule _ _ pre _ semi :: r => toks_ok 0 pre /\ lv_after 0 pre = 0 /\ (semi = false -> fs <> [] /\ closer_next r) /\ evs_ok fs r
   | EBeginAtRule _ name pre _ :: r =>
       toks_ok 0 pre /\ lv_after 0 pre = 0 /\
@@ -1520,7 +1539,10 @@ Proof.
     destruct (step_cd p wt tt tb _ Hw Hcd) as (p1 & Hn & Ht & Hdd & He & Hw1).
     eapply (Hcons _ p1 _ [] Hn eq_refl He Hw1 Hok). unfold view. cbn [fst snd ev_unit]. rewrite Ht, Hdd. reflexivity.
   - (* custom property *)
-    destruct Hok as (Htop & Hr1 & Hr2 & Hsemi & Hok). specialize (Hdc Htop). rewrite Hstk in Hw. destruct csemi.
+    destruct Hok as (Htop & Hr1 & Hr2 & Hsemi & Hok).
+    assert (Hcc : custom_ctx s).
+    { destruct Htop as [Htop|(-> & _)]; [left; exact (Hdc Htop)|]. right. unfold stack in Hstk. cbn [map app] in Hstk. congruence. }
+    clear Hdc. rename Hcc into Hdc. rewrite Hstk in Hw. destruct csemi.
     + repeat (rewrite <- app_assoc in Hw; cbn [app] in Hw).
       destruct (step_custom p s st0 cw1 cname cw2 [58] craw (TSemicolon, [59]) _ Hdc (or_introl eq_refl) Hw Hr1 Hr2) as (p1 & Hn & Ht & Hdd & Hb & He & Hw1).
       unfold wf_after in Hw1. cbn [fst] in Hw1. change (is_t TSemicolon TRightBrace) with false in Hw1. cbv beta iota in Hw1. rewrite <- Hstk in Hw1.
@@ -1613,7 +1635,7 @@ Example wellformed_example :
   evs_ok [] evs.
 Proof.
   cbv zeta. split; [vm_compute; reflexivity|].
-  repeat (first [discriminate | reflexivity | lia | split]).
+  repeat (first [discriminate | reflexivity | lia | left; exact I | split]).
 Qed.
 
 (* " a {\n B : 1 ;c:x; }\nd{}\n" *)
@@ -1627,7 +1649,7 @@ Example wellformed_example_ws :
   evs_ok [] evs.
 Proof.
   cbv zeta. split; [vm_compute; reflexivity|].
-  repeat (first [discriminate | reflexivity | lia | split]).
+  repeat (first [discriminate | reflexivity | lia | left; exact I | split]).
 Qed.
 
 (* "a{b: 1px  solid , red ;c:rgb(1, 2)}" : Values() = [1px " " solid , red] and [rgb( 1 , 2 )] *)
@@ -1648,7 +1670,7 @@ Example wellformed_example_values :
      (GEndRuleset, TRightBrace, [125], [])].
 Proof.
   cbv zeta. split; [vm_compute; reflexivity|]. split; [|vm_compute; reflexivity].
-  repeat (first [discriminate | reflexivity | lia | split]).
+  repeat (first [discriminate | reflexivity | lia | left; exact I | split]).
 Qed.
 
 (* "a > b  c,d [ x=y ] e{}" : Values() of BeginRuleset = a > b " " c , d " " [ x = y ] " " e *)
@@ -1664,7 +1686,7 @@ Example wellformed_example_selector :
                       (TLeftBracket, [91]); (TIdent, [120]); (TDelim, [61]); (TIdent, [121]); (TRightBracket, [93]); sp; (TIdent, [101])].
 Proof.
   cbv zeta. split; [vm_compute; reflexivity|]. split; [|vm_compute; reflexivity].
-  repeat (first [discriminate | reflexivity | lia | split]).
+  repeat (first [discriminate | reflexivity | lia | left; exact I | split]).
 Qed.
 
 (* "a{b , c d{e:f;}g:h;}" : a nested ruleset; its selector is compacted like a top-level one: b , c " " d *)
@@ -1683,7 +1705,7 @@ Example wellformed_example_nested :
      (GDeclaration, TIdent, [103], [(TIdent, [104])]); (GEndRuleset, TRightBrace, [125], [])].
 Proof.
   cbv zeta. split; [vm_compute; reflexivity|]. split; [|vm_compute; reflexivity].
-  repeat (first [discriminate | reflexivity | lia | split]).
+  repeat (first [discriminate | reflexivity | lia | left; exact I | split]).
 Qed.
 
 (* "<!-- /*c*/a{--x: 1 /*k*/ (;) ;&.b{}}-->" : a CDO, a top-level comment, a custom property whose value is the exact source
@@ -1706,7 +1728,7 @@ Example wellformed_example_misc :
      (GEndRuleset, TRightBrace, [125], []); (GEndRuleset, TRightBrace, [125], []); (GToken, TCDC, [45; 45; 62], [])].
 Proof.
   cbv zeta. split; [vm_compute; reflexivity|]. split; [|vm_compute; reflexivity].
-  repeat (first [discriminate | reflexivity | lia | split]).
+  repeat (first [discriminate | reflexivity | lia | left; exact I | split]).
 Qed.
 
 (* "@import url(x) s;@MEDIA (m:1px) and (x: y),p{a{b:c;}}" : the prelude keeps the whitespace after the at-keyword and between
@@ -1735,7 +1757,7 @@ Example wellformed_example_at :
      (GEndRuleset, TRightBrace, [125], []); (GEndAtRule, TRightBrace, [125], [])].
 Proof.
   cbv zeta. split; [vm_compute; reflexivity|]. split; [|vm_compute; reflexivity].
-  repeat (first [discriminate | reflexivity | lia | split | exact I | vm_compute; reflexivity]).
+  repeat (first [discriminate | reflexivity | lia | left; exact I | split | exact I | vm_compute; reflexivity]).
 Qed.
 
 (* "a{b:c}@font-face{d:e;f:g}h{--x: 1}k{@a z}" written the usual way: the last declaration of a block has no
@@ -1760,5 +1782,5 @@ Example wellformed_example_brace :
      (GBeginRuleset, TWhitespace, [], [(TIdent, [107])]); (GAtRule, TAtKeyword, [64; 97], [sp; (TIdent, [122])]); (GEndRuleset, TRightBrace, [125], [])].
 Proof.
   cbv zeta. split; [vm_compute; reflexivity|]. split; [|vm_compute; reflexivity].
-  repeat (first [discriminate | reflexivity | lia | split | exact I | vm_compute; reflexivity | intros _ | intros ?]).
+  repeat (first [discriminate | reflexivity | lia | left; exact I | split | exact I | vm_compute; reflexivity | intros _ | intros ?]).
 Qed.
